@@ -31,10 +31,88 @@ def _apply(variant) -> dict[str, str] | None:
     return overrides
 
 
+def apply_patch(patch_text: str) -> dict[str, str] | None:
+    """In-memory application of a unified diff to the current sources
+    (strict context match, hunks may have moved); None when it does not
+    apply.  Returns {path relative to the repository: new text}."""
+    files: dict[str, list[list[str]]] = {}
+    cur = None
+    hunk = None
+    for line in patch_text.splitlines():
+        if line.startswith("+++ "):
+            path = line[4:].strip()
+            path = path[2:] if path.startswith("b/") else path
+            cur = files.setdefault(path, [])
+            hunk = None
+        elif line.startswith("--- ") or line.startswith("diff ") or \
+                line.startswith("index "):
+            continue
+        elif line.startswith("@@") and cur is not None:
+            hunk = []
+            cur.append(hunk)
+        elif hunk is not None and line[:1] in (" ", "+", "-"):
+            hunk.append(line)
+        elif hunk is not None and line == "":
+            hunk.append(" ")
+    out: dict[str, str] = {}
+    for rel, hunks in files.items():
+        path = REPO / rel
+        if not path.exists():
+            return None
+        lines = path.read_text().split("\n")
+        pos = 0
+        for h in hunks:
+            old = [l[1:] for l in h if l[:1] in (" ", "-")]
+            new = [l[1:] for l in h if l[:1] in (" ", "+")]
+            hit = None
+            for i in range(pos, len(lines) - len(old) + 1):
+                if lines[i:i + len(old)] == old:
+                    hit = i
+                    break
+            if hit is None:
+                return None
+            lines[hit:hit + len(old)] = new
+            pos = hit + len(new)
+        out[rel] = "\n".join(lines)
+    return out
+
+
+def patch_variants(prop: str) -> list[dict]:
+    """The committed corpora as variants: every behaviour preserving refactor
+    under /verif/benign must stay silent for every property; every seeded
+    change written against this property must be reported (seeds recorded as
+    not caught by their own check are listed, not counted as problems)."""
+    import json
+    from pathlib import Path
+    root = Path(__file__).resolve().parent.parent
+    out = []
+    for d in sorted((root / "benign").glob("*/")):
+        pf = d / "patch.diff"
+        if pf.exists():
+            out.append({"name": f"benign/{d.name}", "expect": "silent",
+                        "patch": pf.read_text(), "rule": None})
+    for d in sorted((root / "seeded").glob(f"{prop}-*/")):
+        pf, mf = d / "patch.diff", d / "meta.json"
+        if not pf.exists():
+            continue
+        documented_miss = False
+        if mf.exists():
+            try:
+                documented_miss = not json.loads(mf.read_text()).get(
+                    "caught_by_own_property", True)
+            except Exception:
+                pass
+        out.append({"name": f"seeded/{d.name}",
+                    "expect": "documented-miss" if documented_miss else "fire",
+                    "patch": pf.read_text(), "rule": None})
+    return out
+
+
 def _run_variant(args):
     prop, variant, base_ids, base_errs = args
     from .main import run_property
-    ov = _apply(variant)
+    ov = apply_patch(variant["patch"]) if "patch" in variant else \
+        _apply(variant)
     if ov is None:
         return variant["name"], "skipped", []
     try:
@@ -44,6 +122,9 @@ def _run_variant(args):
         return variant["name"], f"crash: {e!r}", []
     new = [f.ident() for f in res.findings if f.ident() not in base_ids]
     new_err = [e for e in res.errors if e not in base_errs]
+    if variant["expect"] == "documented-miss":
+        return variant["name"], ("fired" if new else "documented-miss"), \
+            (new or new_err)[:2]
     if variant["expect"] == "fire":
         want_rule = variant.get("rule")
         hit = [i for i in new if not want_rule or i.startswith(want_rule + "|")]
@@ -62,7 +143,7 @@ def _run_variant(args):
 
 def run(prop: str, res: Result) -> None:
     from .variants import VARIANTS
-    variants = VARIANTS.get(prop, [])
+    variants = list(VARIANTS.get(prop, [])) + patch_variants(prop)
     if not variants:
         res.extra["selftest"] = {"variants": 0}
         return
